@@ -448,11 +448,12 @@ def find_bucket(dt):
     raise common.InfraError("no pixel bucket in the result")
 
 
-def extract_entries(ds, n_slots):
+def extract_entries(ds, n_slots, with_image=False):
     """one entry per element of the parameter grid of the result: labels (every coordinate that varies with
     the parameter dimensions, canonical) and the first `n_slots` pixels of that run"""
     import numpy as np
 
+    ds = ds.compute() if with_image else ds
     px = ds["pixel"].compute()
     core = ("time", "y", "x")
     pdims = [d for d in px.dims if d not in core]
@@ -472,7 +473,11 @@ def extract_entries(ds, n_slots):
         for cname, c in coords.items():
             sub = c.isel({d: i for d, i in sel.items() if d in c.dims}).values
             labels[cname] = cv(sub.tolist() if isinstance(sub, np.ndarray) else sub)
-        entries.append({"labels": labels, "data": [num(x) for x in data[:n_slots]]})
+        e = {"labels": labels, "data": [num(x) for x in data[:n_slots]]}
+        if with_image and "image" in ds:
+            im = np.asarray(ds["image"].isel(sel).values)
+            e["image"] = num(im.reshape(-1)[0])
+        entries.append(e)
     return {"dims": [str(d) for d in pdims], "entries": entries}
 
 
@@ -506,7 +511,7 @@ def exec_log(case, extra_slots=0):
 
 
 def run_impl(case, scheduler="synchronous", num_workers=None, delay_ms=0.0, with_dask=None, outputs_dir=None,
-             pipeline_seed=None, extra=None, extra_slots=0):
+             pipeline_seed=None, extra=None, extra_slots=0, with_image=False):
     """run the real Observation; returns {"dims", "entries", "exec"} or {"error", "msg"}"""
     import dask
     import obsprobes
@@ -531,7 +536,7 @@ def run_impl(case, scheduler="synchronous", num_workers=None, delay_ms=0.0, with
             with dask.config.set(**cfg):
                 dt = pyxel.run_mode(mode=obs, detector=det, pipeline=pipe,
                                     with_inherited_coords=bool(case.get("inherit")) or obs.with_dask)
-                out = extract_entries(find_bucket(dt), nslots(case) + extra_slots)
+                out = extract_entries(find_bucket(dt), nslots(case) + extra_slots, with_image)
             out["exec"] = exec_log(case, extra_slots)
             if outputs is not None:
                 out["output_dir"] = str(outputs.current_output_folder)
